@@ -1,11 +1,14 @@
 #!/usr/bin/env python3
 """Re-runs every stored independent breaking change (seeded/<id>/patch.diff) against the checks.
 
-For each change: `git -C /repo apply patch.diff`, run `./check <property> --tier quick --seed 0/1` (and the thorough
-tier if quick misses), `git -C /repo checkout -- .`.  Writes seeded/RESULTS.json and seeded/README.md.
-Nothing is committed to /repo.  usage: tools/seeded_run.py [id ...]
+For each change: a scratch git worktree of /repo's HEAD is made under /tmp, patch.diff is applied there, the author's
+demo.py is run on it (must fail), `./check <property> --tier quick --seed 0/1` run with VERIF_REPO pointing at it (and the
+thorough tier if quick misses; evidence goes to a scratch directory), and the worktree is removed.  Several changes are
+processed in parallel.  With --in-repo the change is applied to /repo itself instead (`git -C /repo apply`, checks,
+`git -C /repo checkout -- .`), one at a time.  Writes seeded/RESULTS.json and seeded/README.md.
+Nothing is committed to /repo.  usage: tools/seeded_run.py [--in-repo] [--jobs N] [id ...]
 """
-import json, subprocess, sys, re
+import json, os, subprocess, sys, re
 from pathlib import Path
 
 ROOT = Path(__file__).resolve().parent.parent
@@ -16,16 +19,70 @@ def sh(cmd, **kw):
     return subprocess.run(cmd, shell=True, capture_output=True, text=True, **kw)
 
 
-def run_check(prop, tier, seed):
-    r = sh(f'./check {prop} --tier {tier} --seed {seed}', cwd=ROOT)
-    mons = sorted(set(re.findall(r'monitor=([\w-]+)', r.stdout)))
+def run_check(prop, tier, seed, tree=None):
+    env = dict(os.environ)
+    if tree:
+        env.update(VERIF_REPO=tree, VERIF_EVIDENCE_DIR=tree + '-evidence')
+    r = sh(f'./check {prop} --tier {tier} --seed {seed}', cwd=ROOT, env=env)
+    mons = sorted(set(re.findall(r'monitor=([\w-]+(?::[\w-]+)?)', r.stdout)))
     return r.returncode, mons
 
 
+def one_in_worktree(sid, head):
+    d = ROOT / 'seeded' / sid
+    meta = json.loads((d / 'meta.json').read_text())
+    prop = meta['breaks_property']
+    if meta.get('superseded_by_fix'):
+        return sid, {'repo_head': head, 'applies': None, 'property': prop, 'caught': None,
+                     'superseded_by_fix': meta['superseded_by_fix']}
+    tree = f'/tmp/seedrun-{sid}'
+    sh(f'git -C {REPO} worktree remove --force {tree}')
+    r = sh(f'git -C {REPO} worktree add --detach {tree} HEAD')
+    if r.returncode:
+        return sid, {'repo_head': head, 'applies': False, 'error': r.stderr.strip()[:300]}
+    try:
+        a = sh(f'git -C {tree} apply {d / "patch.diff"}')
+        if a.returncode:
+            return sid, {'repo_head': head, 'applies': False, 'error': a.stderr.strip()[:300]}
+        demo = sh(f'PYTHONPATH={tree} timeout 600 /venv/bin/python {d / "demo.py"}', cwd='/tmp')
+        runs, caught = {}, False
+        for seed in (0, 1):
+            rc, mons = run_check(prop, 'quick', seed, tree)
+            runs[f'quick seed {seed}'] = {'exit': rc, 'monitors': mons}
+            caught = caught or rc == 1
+        if not caught:
+            rc, mons = run_check(prop, 'thorough', 0, tree)
+            runs['thorough seed 0'] = {'exit': rc, 'monitors': mons}
+            caught = rc == 1
+        return sid, {'repo_head': head, 'applies': True, 'property': prop, 'caught': caught, 'runs': runs,
+                     'demo_exit_with_patch': demo.returncode}
+    finally:
+        sh(f'git -C {REPO} worktree remove --force {tree}')
+        sh(f'rm -rf {tree} {tree}-evidence')
+
+
 def main():
-    ids = sys.argv[1:] or sorted(p.name for p in (ROOT / 'seeded').iterdir() if (p / 'patch.diff').exists())
+    args = sys.argv[1:]
+    in_repo = '--in-repo' in args
+    jobs = 3
+    if '--jobs' in args:
+        jobs = int(args[args.index('--jobs') + 1])
+        del args[args.index('--jobs'):args.index('--jobs') + 2]
+    args = [a for a in args if a != '--in-repo']
+    ids = args or sorted(p.name for p in (ROOT / 'seeded').iterdir() if (p / 'patch.diff').exists())
     res_path = ROOT / 'seeded' / 'RESULTS.json'
     results = json.loads(res_path.read_text()) if res_path.exists() else {}
+    if not in_repo:
+        from concurrent.futures import ThreadPoolExecutor
+        head = sh(f'git -C {REPO} rev-parse --short HEAD').stdout.strip()
+        with ThreadPoolExecutor(jobs) as ex:
+            for sid, res in ex.map(lambda i: one_in_worktree(i, head), ids):
+                results[sid] = res
+                print(sid, 'superseded' if res.get('superseded_by_fix') else 'caught' if res.get('caught') else 'MISSED',
+                      res.get('runs', res.get('error', '')), 'demo exit', res.get('demo_exit_with_patch'), flush=True)
+        res_path.write_text(json.dumps(results, indent=1, sort_keys=True) + '\n')
+        write_readme(results)
+        return
     if sh(f'git -C {REPO} status --porcelain --untracked-files=no').stdout.strip():
         sys.exit('/repo is dirty')
     head = sh(f'git -C {REPO} rev-parse --short HEAD').stdout.strip()
